@@ -801,6 +801,14 @@ FINDINGS
   those shapes made the oracle pass).  Now an ordinary supported case: half of the generated models contain such
   values, the witness is replayed on every run (`fixed: property=C03 5c8d56d ...`; failing again ->
   fixed-finding-regressed).  The attribution-by-repair machinery (REPAIRS / known_key) stays for future entries.
+* function-value-name-with-slash-below-ir10 (known_findings.d/C03.json, status known;
+  proposed_fixes/C03-function-value-info-name-with-slash.diff): below IR 10 the type/shape/doc/metadata of a function's
+  inputs and node outputs travel in the main graph's value_info under "{domain}::{function}/{value}"; for a value
+  whose own name contains "/" (e.g. "a/b") the serializer writes "D::F/a/b" but
+  serde._parse_experimental_function_value_info_name demands exactly one "/" and ignores the entry: the value
+  reads back without type/shape.  The generator produces it for ~40% of the functions of IR<10 models; the oracle
+  sees "iso:type/shape/doc/metadata: fn:..." and attributes it by repair (replacing "/" in those names makes the
+  oracle pass); the witness is replayed on every run (KNOWN-FINDING line; known-finding-stale if it stops failing).
 * Side observation (C01 territory): `graph.outputs[i] = v` with v owned by another graph raises ValueError after
   clearing is_graph_output/_graph of the old value, which stays in the list.
 * After 420823a (C17 fix) an initializer that is not a graph input reads back with a missing type and/or a missing
@@ -1593,6 +1601,14 @@ class Gen:
             attrs.append({"k": "int", "name": "beta", "v": 3})
         self.emit({"op": "function", "id": fid, "domain": dom, "name": name, "overload": ov, "graph": gid, "attrs": attrs})
         self.funcs.append((fid, dom, name, ov))
+        if self.ir_version < 10 and r.random() < 0.4:
+            # known finding function-value-name-with-slash-below-ir10: a "/" in the name of a typed function value
+            g = self.env.g[gid]
+            c = [v for v in list(g.inputs) + [o for n in g for o in n.outputs]
+                 if v.name and id(v) in self.hv and value_payload_key(v) is not None]
+            if c:
+                v = r.choice(c)
+                self.emit({"op": "rename", "v": self.hv[id(v)], "name": v.name + "/" + r.choice(["b", "out/0"])})
 
     def gen_model(self) -> None:
         r = self.rng
@@ -2877,7 +2893,19 @@ def repair_shape_without_type(model) -> None:
             v.shape = None
 
 
-REPAIRS = {"shape-without-type": repair_shape_without_type}
+def repair_function_value_slash(model) -> None:
+    """Remove the recorded defect site: below IR 10 the value info of a function's inputs / node outputs travels
+    in the main graph under "{domain}::{function}/{value}"; a "/" in the value name makes the entry unreadable."""
+    if model.ir_version >= 10:
+        return
+    for f in model.functions.values():
+        for v in list(f.inputs) + [o for n in f for o in n.outputs]:
+            if v.name and "/" in v.name:
+                v.name = v.name.replace("/", "_")
+
+
+REPAIRS = {"shape-without-type": repair_shape_without_type,
+           "function-value-name-with-slash-below-ir10": repair_function_value_slash}
 
 
 def known_key(ck, recipe: dict, msgs: list):
